@@ -116,3 +116,22 @@ Lemma closed_loop_pinned :
   out_text (run_pinned (init true) w_crash) = [] /\
   queue_text (px (run_pinned (init true) w_crash)) = tb.
 Proof. vm_compute. repeat split. Qed.
+
+(* The window between Application.exit() (is_done) and run_async resuming (_is_running still
+   True): a print executed there is bracketed and followed by a normal render, but asks for no
+   cursor position (the request is keyed on is_done, not on _is_running), so run_async can
+   return at once; the same print before exit() leaves a request outstanding. *)
+Definition w_window : list label :=
+  [LAppStart; LCprAnswer; LW 0 ta] ++ batch ++ [LAppDone; LLoopStep; LAppExit; LAppStop].
+Definition w_nowindow : list label :=
+  [LAppStart; LCprAnswer; LW 0 ta] ++ batch ++ [LLoopStep; LAppExit; LAppStop].
+
+Lemma window_example :
+  all_enabled (init2 true true) w_window = true /\
+  cprq (cp (run (init2 true true) w_window)) = O /\ app (en (run (init2 true true) w_window)) = false /\
+  brk_run (out (run (init2 true true) w_window)) = Some false /\
+  out_text (run (init2 true true) w_window) = ta /\
+  (* before exit(): the request is made and run_async has to wait for it *)
+  all_enabled (init2 true true) w_nowindow = false /\
+  cprq (cp (run (init2 true true) w_nowindow)) = 1%nat /\ app (en (run (init2 true true) w_nowindow)) = true.
+Proof. vm_compute. repeat split. Qed.
